@@ -24,6 +24,94 @@ type C14Plan struct {
 	Certs     []C14Cert `json:"certs,omitempty"`
 	Chain     string    `json:"chain,omitempty"` // "", "xpoa", "tdpos": also present certificates as justify of real blocks
 	ChainMax  int       `json:"chain_max,omitempty"`
+	VC        *C14VC    `json:"vc,omitempty"` // xpoa chain path only: the validator set is changed on chain and certificates keep being judged
+}
+
+// c14Ids is the number of fixed identities validator sets are drawn from: identity j of a plan is
+// Accts[(Rot+j) % c14Ids]; the configured (old) set is j = 0..N-1.
+const c14Ids = 14
+
+// C14VC describes a validator change made on the booted xpoa+BFT chain by a real editValidates
+// transaction, and how far the chain is then driven. The harness finds out by itself (from the
+// node) from which view on the new list is in force.
+type C14VC struct {
+	New  []int `json:"new"`           // the new validator list: identities j (see c14Ids), in list order
+	Pre  int   `json:"pre,omitempty"` // honest blocks between the height-2 stage and the block that carries the change
+	Tail int   `json:"tail"`          // heights judged beyond the boundary height
+	Sel  int   `json:"sel,omitempty"` // varies the collectors (= producers of the judged candidate blocks)
+	Max  int   `json:"max"`           // plan certificates presented per collector at the boundary height, half as many at the others (the motif certificates come on top)
+}
+
+// genC14VC draws a validator change for an old set of n members: kind 1 replaces d members by d
+// fresh identities, 2 adds fresh identities, 3 removes members, 4 removes and adds independently.
+func genC14VC(rt *rapid.T, n, kind int) *C14VC {
+	vc := &C14VC{Max: 6}
+	maxAdd := c14Ids - n
+	if maxAdd > 4 {
+		maxAdd = 4
+	}
+	drop, add := 0, 0
+	if kind == 3 && n == 1 {
+		kind = 1
+	}
+	switch kind {
+	case 1:
+		m := maxAdd
+		if n < m {
+			m = n
+		}
+		drop = rapid.IntRange(1, m).Draw(rt, "vc-replace")
+		add = drop
+	case 2:
+		add = rapid.IntRange(1, maxAdd).Draw(rt, "vc-add")
+	case 3:
+		drop = rapid.IntRange(1, n-1).Draw(rt, "vc-drop")
+	default:
+		drop = rapid.IntRange(0, n-1).Draw(rt, "vc-drop")
+		add = rapid.IntRange(0, maxAdd).Draw(rt, "vc-add")
+		if drop+add == 0 {
+			add = 1
+		}
+	}
+	for n-drop+add > 11 { // at least three identities stay outside every set
+		add--
+	}
+	if drop+add == 0 {
+		drop = 1
+	}
+	dropAt := rapid.IntRange(0, n-1).Draw(rt, "vc-dropat")
+	dropped := map[int]bool{}
+	for i := 0; i < drop; i++ {
+		dropped[(dropAt+i)%n] = true
+	}
+	var kept, fresh []int
+	for i := 0; i < n; i++ {
+		if !dropped[i] {
+			kept = append(kept, i)
+		}
+	}
+	for j := 0; j < add; j++ {
+		fresh = append(fresh, n+j)
+	}
+	switch rapid.IntRange(0, 2).Draw(rt, "vc-order") {
+	case 0:
+		vc.New = append(append(vc.New, kept...), fresh...)
+	case 1:
+		vc.New = append(append(vc.New, fresh...), kept...)
+	default:
+		for i := 0; i < len(kept) || i < len(fresh); i++ {
+			if i < len(fresh) {
+				vc.New = append(vc.New, fresh[i])
+			}
+			if i < len(kept) {
+				vc.New = append(vc.New, kept[i])
+			}
+		}
+	}
+	vc.Pre = rapid.IntRange(0, 2).Draw(rt, "vc-pre")
+	vc.Tail = rapid.IntRange(1, 5).Draw(rt, "vc-tail")
+	vc.Sel = rapid.IntRange(0, 7).Draw(rt, "vc-sel")
+	return vc
 }
 
 // c14Universe lists the entry universe used by the exhaustive enumeration for a validator set of
@@ -143,6 +231,16 @@ func GenC14Plan(rt *rapid.T, tier string) *C14Plan {
 		}
 		for i := 0; i < nc; i++ {
 			p.Certs = append(p.Certs, genC14Cert(rt, p.N, p.Collector))
+		}
+	}
+	// drawn last (the draws above are what they were before validator changes existed); 0 = no change.
+	// Only plans whose smr-level part is cheap get a change (explicit certificates, or the enumeration
+	// for n <= 2): rapid minimises a failing plan by re-executing variants of it, one whole execution
+	// per step and without looking at the clock inside a step, and a failure of the change stage must
+	// not drag an n = 3 / 4 enumeration slice through every one of those steps.
+	if p.Chain == "xpoa" && (p.Mode == "sample" || p.N <= 2) {
+		if kind := rapid.IntRange(0, 4).Draw(rt, "vc"); kind > 0 {
+			p.VC = genC14VC(rt, p.N, kind)
 		}
 	}
 	return p
